@@ -15,6 +15,7 @@ import (
 	"google.golang.org/grpc"
 	"google.golang.org/grpc/codes"
 	"google.golang.org/grpc/credentials/insecure"
+	_ "google.golang.org/grpc/encoding/gzip" // client-side gzip for the real-transport passes
 	"google.golang.org/grpc/metadata"
 	"google.golang.org/grpc/reflection"
 	rpb "google.golang.org/grpc/reflection/grpc_reflection_v1alpha"
@@ -633,4 +634,247 @@ func runC11Conformance(c *Ctx, w *bWorld) {
 	}
 	r.AddValidated(validated)
 	r.Set("conformance", map[string]any{"what": fmt.Sprintf("every history of depth <= %d over {RegisterService, RegisterConn x3, DropConn x3} re-run with three real grpc-go servers (grpc-go's own reflection service, real data-plane calls) behind the Mux", depth), "histories": validated})
+}
+
+// ---- C05 / C06: real grpc-go and net/http clients against larking.NewServer ---------------
+
+// runC05Conformance: every code × message class (× details) through a real grpc-go client; the
+// client-side status (status.FromError) must equal what the handler returned, and must equal
+// what the in-process decoders of ref/wire recovered for the same case.
+func runC05Conformance(c *Ctx) {
+	r := c.Run
+	t, err := newTSchema()
+	if err != nil {
+		panic(err)
+	}
+	m, impl, err := t.newMux()
+	if err != nil {
+		panic(err)
+	}
+	var mu sync.Mutex
+	_ = mu
+	front, err := startFront(m)
+	if err != nil {
+		r.Violation(report.Violation{Oracle: "conformance-setup", Key: "conformance-setup C05", Case: map[string]any{}, Note: err.Error()})
+		return
+	}
+	defer front.stop()
+	cc := dial(front.addr)
+	defer cc.Close()
+	inproc := newC05Env()
+	msgs := []string{"", "plain", "a%b é\n", "100%", "\x7f", "tab\there", strings.Repeat("y", 122) + "é", " lead and trail "}
+	var validated int64
+	for _, code := range c05Codes {
+		if code > 1<<31-1 {
+			// grpc-go's client parses grpc-status with ParseInt(…, 32) and turns larger values
+			// into its own Internal error; that is the client's limit, not larking's output
+			// (the in-process decoder checks the decimal value itself).
+			continue
+		}
+		for _, msg := range msgs {
+			for d := 0; d <= 2; d += 2 {
+				for _, shape := range []string{"unary", "ss"} {
+					tc := c05Case{Proto: "grpc", Shape: shape, Code: code, Message: msg, Details: d}
+					after := 0
+					if shape == "ss" {
+						after = 1
+						tc.After = 1
+					}
+					herr := c05Err(&tc)
+					var replies []proto.Message
+					for i := 0; i < after; i++ {
+						replies = append(replies, t.newRsp("", []byte("r"), 0))
+					}
+					impl.reset(hScript{RecvN: -1, Replies: replies, Err: herr, ErrAfter: after})
+					ctx, cancel := context.WithTimeout(context.Background(), 10*time.Second)
+					var gerr error
+					nReplies := 0
+					if shape == "unary" {
+						gerr = cc.Invoke(ctx, "/vs.T/Unary", t.newReq("", []byte("q"), 0), dynamicpb.NewMessage(t.rsp))
+					} else {
+						st, err := cc.NewStream(ctx, &grpc.StreamDesc{ServerStreams: true}, "/vs.T/SS")
+						if err == nil {
+							err = st.SendMsg(t.newReq("", []byte("q"), 0))
+						}
+						if err == nil {
+							err = st.CloseSend()
+						}
+						for err == nil {
+							err = st.RecvMsg(dynamicpb.NewMessage(t.rsp))
+							if err == nil {
+								nReplies++
+							}
+						}
+						gerr = err
+					}
+					cancel()
+					validated++
+					r.Eval(1)
+					st, _ := status.FromError(gerr)
+					realObs := fmt.Sprintf("code=%d msg=%q details=%d replies=%d", uint32(st.Code()), st.Message(), len(st.Details()), nReplies)
+					wantObs := fmt.Sprintf("code=%d msg=%q details=%d replies=%d", code, msg, d, after)
+					// the in-process model of the same case
+					oracle, note := inproc.exec(&tc)
+					key := fmt.Sprintf("shape=%s code=%d details=%d msg=%q", shape, code, d, truncS(msg, 30))
+					switch {
+					case realObs != wantObs:
+						r.Outcome("FAIL:real-grpc-client-status")
+						r.Violation(report.Violation{Oracle: "real-grpc-client-status", Key: "real-grpc-client-status " + key, Case: tc, Note: fmt.Sprintf("handler returned %s; a real grpc-go client over h2c observed %s", wantObs, realObs)})
+					case oracle != "":
+						r.Outcome("FAIL:model-disagrees-with-real-transport")
+						r.Violation(report.Violation{Oracle: "model-disagrees-with-real-transport", Key: "model-disagrees-with-real-transport " + key, Case: tc, Note: "real grpc-go client sees the right status but the in-process decoders report: " + oracle + " " + note})
+					default:
+						r.Outcome("conformance:grpc-go-client-agrees")
+					}
+				}
+			}
+		}
+	}
+	r.AddValidated(validated)
+	r.Set("conformance", map[string]any{"what": "every status code × 8 message classes × {0,2} details × {unary, after one reply} through a real grpc-go client over loopback h2c (larking.NewServer); status.FromError must equal the handler's status and the in-process decoders must agree", "cases": validated})
+}
+
+// runC06Conformance: client-streaming and bidi sequences through real clients (grpc-go over
+// h2c; net/http with a chunked JSON body): the handler log must equal the sent sequence followed
+// by io.EOF, exactly as the scripted-reader model prescribes for the complete (untruncated) case.
+func runC06Conformance(c *Ctx) {
+	r := c.Run
+	t, err := newTSchema()
+	if err != nil {
+		panic(err)
+	}
+	m, impl, err := t.newMux()
+	if err != nil {
+		panic(err)
+	}
+	front, err := startFront(m)
+	if err != nil {
+		r.Violation(report.Violation{Oracle: "conformance-setup", Key: "conformance-setup C06", Case: map[string]any{}, Note: err.Error()})
+		return
+	}
+	defer front.stop()
+	cc := dial(front.addr)
+	defer cc.Close()
+	var validated int64
+	seqs := [][]int{{}, {0}, {5}, {0, 0}, {1, 5}, {5, 0, 1}, {300}, {70, 70, 0}}
+	for _, in := range seqs {
+		for _, transport := range []string{"grpc", "grpc-gzip", "http-json", "http-proto"} {
+			for _, shape := range []string{"cs", "bidi"} {
+				var sent []proto.Message
+				for i, sz := range in {
+					sent = append(sent, t.newReq("", append([]byte(fmt.Sprintf("m%d:", i)), c06Payload(i, sz)...), 0))
+				}
+				replies := []proto.Message{t.newRsp("", []byte("r0"), 0), t.newRsp("", nil, 0)}
+				impl.reset(hScript{RecvN: -1, Replies: replies})
+				method := map[string]string{"cs": "CS", "bidi": "Bidi"}[shape]
+				gotReplies := 0
+				ctx, cancel := context.WithTimeout(context.Background(), 10*time.Second)
+				var callErr error
+				switch transport {
+				case "grpc", "grpc-gzip":
+					var opts []grpc.CallOption
+					if transport == "grpc-gzip" {
+						opts = append(opts, grpc.UseCompressor("gzip"))
+					}
+					st, err := cc.NewStream(ctx, &grpc.StreamDesc{ClientStreams: true, ServerStreams: shape == "bidi"}, "/vs.T/"+method, opts...)
+					if err != nil {
+						callErr = err
+						break
+					}
+					for _, mm := range sent {
+						if err := st.SendMsg(mm); err != nil {
+							callErr = err
+						}
+					}
+					st.CloseSend() //nolint
+					for {
+						err := st.RecvMsg(dynamicpb.NewMessage(t.rsp))
+						if err != nil {
+							if err != io.EOF {
+								callErr = err
+							}
+							break
+						}
+						gotReplies++
+						if shape == "cs" {
+							break
+						}
+					}
+				default:
+					var body bytes.Buffer
+					for _, mm := range sent {
+						if transport == "http-json" {
+							js, _ := protojson.Marshal(mm)
+							body.Write(js)
+						} else {
+							pb, _ := proto.Marshal(mm)
+							body.Write(refVarint(uint64(len(pb))))
+							body.Write(pb)
+						}
+					}
+					req, _ := http.NewRequestWithContext(ctx, "POST", "http://"+front.addr+shapeRoute[shape], io.MultiReader(&body))
+					if transport == "http-json" {
+						req.Header.Set("Content-Type", "application/json")
+					} else {
+						req.Header.Set("Content-Type", "application/protobuf")
+					}
+					rsp, err := http.DefaultClient.Do(req)
+					if err != nil {
+						callErr = err
+						break
+					}
+					b, _ := io.ReadAll(rsp.Body)
+					rsp.Body.Close()
+					if rsp.StatusCode != 200 {
+						callErr = fmt.Errorf("HTTP %d %s", rsp.StatusCode, truncS(string(b), 80))
+					}
+					if transport == "http-json" {
+						objs, _ := splitJSONStream(b)
+						gotReplies = len(objs)
+						if shape == "cs" {
+							gotReplies = 1
+						}
+					} else {
+						ms, _ := splitVarintStream(b)
+						gotReplies = len(ms)
+						if shape == "cs" {
+							gotReplies = 1
+						}
+					}
+				}
+				cancel()
+				validated++
+				r.Eval(1)
+				lg := impl.log
+				bad := ""
+				wantReplies := 2
+				if shape == "cs" {
+					wantReplies = 1
+				}
+				switch {
+				case callErr != nil:
+					bad = "the call failed: " + callErr.Error()
+				case len(lg.Recv) != len(sent):
+					bad = fmt.Sprintf("client sent %d messages, handler received %d (then err=%v)", len(sent), len(lg.Recv), lg.RecvErr)
+				case lg.RecvErr != io.EOF:
+					bad = fmt.Sprintf("after %d messages the handler got err=%v, want io.EOF", len(lg.Recv), lg.RecvErr)
+				case gotReplies != wantReplies:
+					bad = fmt.Sprintf("handler sent %d replies, client got %d", wantReplies, gotReplies)
+				}
+				for i := range lg.Recv {
+					if bad == "" && !sameWire(lg.Recv[i], sent[i]) {
+						bad = fmt.Sprintf("message %d differs", i)
+					}
+				}
+				if bad != "" {
+					r.Outcome("FAIL:real-transport-stream")
+					r.Violation(report.Violation{Oracle: "real-transport-stream", Key: fmt.Sprintf("real-transport-stream transport=%s shape=%s in=%v", transport, shape, in), Case: c06Case{Transport: transport, Shape: shape, In: in, Out: []int{2, 0}, Truncate: -1}, Note: "with a real client over loopback: " + bad})
+					continue
+				}
+				r.Outcome("conformance:real-client-stream-ok")
+			}
+		}
+	}
+	r.AddValidated(validated)
+	r.Set("conformance", map[string]any{"what": "client-streaming and bidi sequences through real clients (grpc-go identity/gzip over h2c, net/http chunked JSON and varint-delimited protobuf) against larking.NewServer: handler log = sent sequence + io.EOF, replies complete", "cases": validated})
 }
